@@ -14,9 +14,13 @@ REQUIRED_THEOREMS = ["Gv.Props.C14." + n for n in [
     "informativeSites_eq_spec", "avgAllelesCounts_eq_spec", "countDifferences_panic_iff", "countDifferences_all_eq_spec",
     "countDifferences_counts_eq_spec", "numGapsUnique_eq_spec", "numMutationsUnique_eq_spec",
     "equalOrCompatible_is_shared_base", "nt2IndexIUPAC_defined_iff", "numMutationsVsRef_eq_spec",
-    "listMutationsVsRef_eq_spec", "wildcard_or_compatible_is_no_substitution"]]
+    "listMutationsVsRef_eq_spec", "wildcard_or_compatible_is_no_substitution", "entropy_eq_spec",
+    # MaxCharStats / Consensus on the actual count entries of a column (first-appearance order = some map order)
+    "countUpper_eq_tally", "countUpper_keys_nodup", "countUpper_lookup", "countUpper_pos",
+    "maxCharSite_order_independent", "maxCharSite_is_argmax"]]
 LEVEL_TEXT = ("Lean theorems: MaxCharStats' selection loop returns the same result for EVERY iteration order of the count entries "
-              "(Go map order = arbitrary permutation) and equals the naive argmax with the smallest-byte tie rule; every counting "
+              "(Go map order = arbitrary permutation) and equals the naive argmax with the smallest-byte tie rule, also stated on the actual "
+              "count entries of a column (distinct keys, naive counts, positive); every counting "
               "statistic's model (the Go loops with their accumulators, early exits and counter slices: CharStats, UniqueCharacters, "
               "CharStatsSeq/Site, NbVariableSites, InformativeSites, the two counters of AvgAllelesPerSite, CountDifferences, unique "
               "gaps / mutations per sequence, number and list of mutations vs a reference incl. IUPAC compatibility on base sets) is "
@@ -29,8 +33,9 @@ TECHNIQUE = "Lean 4 proof (order-independence for all permutations, list inducti
 RULE = ("alignments of 1..6 rows x 1..6 columns over small alphabets with ties for the most frequent character, all-gap and all-N "
         "columns, mixed case, specials; all site indices in [-1, L]; both ignore options; every map-ordered call repeated 200 "
         "times; non-trivial = a column with a tie or a boundary index")
-PARTIAL = ["Entropy: only the index-error theorem; the float sum (math.Log) is compared with tolerance 1e-12, rounding is not modelled; "
-           "AvgAllelesPerSite: the two integer counters are proved, the float64 quotient is compared with tolerance",
+PARTIAL = ["Entropy: the occurrence counts, the summation order and the error/NaN cases are proved (entropy_eq_spec); the float sum itself "
+           "(math.Log) is compared with tolerance 1e-12, rounding is not modelled; AvgAllelesPerSite: the two integer counters are "
+           "proved, the float64 quotient is compared with tolerance",
            "Pssm and count profiles (profile.go), and the profile-dependent outputs (numnew, numboth) of the unique gap / mutation "
            "counters, are exercised by the harness for determinism only, not modelled",
            "the model is stated for ASCII residues: CharStats / InformativeSites index 130-entry slices with unicode.ToUpper(rune) "
